@@ -203,3 +203,92 @@ Proof.
     try (assert (word g = 1) by (apply Hw; reflexivity));
     (split; [eqb_goal; lia|]); (split; [eqb_goal; lia|]); (split; [lia|]); (split; intros; try lia; auto).
 Qed.
+
+(* ---------- C: reference counting ---------- *)
+Definition own (th : thread) : Z := hnd th + tok th.
+Definition tokbit (k : Z) : Prop := k = 0 \/ k = 1.
+
+(* programs never use a handle / the OnceFunction they do not hold: h handles, k = 1 iff the thread owns the OnceFunction *)
+Fixpoint wfp (h k : Z) (p : list op) : Prop :=
+  match p with
+  | [] => True
+  | ORun :: r => k = 1 /\ wfp h 0 r
+  | OCopy :: r => 1 <= h /\ wfp (h + 1) k r
+  | ODrop :: r => 1 <= h /\ wfp (h - 1) k r
+  | _ :: r => 1 <= h /\ wfp h k r
+  end.
+
+Definition boundary (h k : Z) (p : list op) : Prop := 0 <= h /\ tokbit k /\ wfp h k p.
+Definition user (h k : Z) (p : list op) : Prop := 1 <= h /\ tokbit k /\ wfp h k p.
+Definition kont_inv (K : kont) (h k : Z) (p : list op) : Prop :=
+  match K with KRunner => k = 1 /\ 0 <= h /\ wfp h 0 p | _ => user h k p end.
+
+Definition pc_kont (p : pc) : option kont :=
+  match p with
+  | PRunCas k | PFunc k | PNotifyStore k | PNotifyWake k | PTsc k | PChainLoad k | PChainCas k _ | PDispatch k _ _
+  | PWcLoad k | PWaitLoad k | PWaitFutex k _ | PBlocked k | PWoken k | PWfLoad0 k | PWuLoad k => Some k
+  | _ => None
+  end.
+
+Definition thr_ok (th : thread) : Prop :=
+  let h := hnd th in let k := tok th in let p := prog th in
+  match tpc th with
+  | PStart => boundary h k p
+  | PDone => 0 <= h /\ tokbit k
+  | PDecRef true => k = 1 /\ 0 <= h /\ wfp h 0 p
+  | PDecRef false => 1 <= h /\ tokbit k /\ wfp (h - 1) k p
+  | PIncRef => 1 <= h /\ tokbit k /\ wfp (h + 1) k p
+  | q => match pc_kont q with Some K => kont_inv K h k p | None => user h k p end
+  end.
+
+Definition count_incs (p : list op) : Z := zsum (fun o => match o with OCopy | OThen _ => 1 | _ => 0 end) p.
+Definition incs (th : thread) : Z := count_incs (prog th) + match tpc th with PIncRef | PThenInc _ => 1 | _ => 0 end.
+
+Lemma count_incs_nonneg p : 0 <= count_incs p.
+Proof. apply zsum_nonneg. intros o _. destruct o; lia. Qed.
+Lemma incs_nonneg th : 0 <= incs th.
+Proof. unfold incs. pose proof (count_incs_nonneg (prog th)). destruct (tpc th); lia. Qed.
+
+Lemma ok_next X : boundary (hnd X) (tok X) (prog X) -> thr_ok (next X).
+Proof.
+  unfold boundary, thr_ok, next, tokbit. intros (H0 & Hk & W). destruct (prog X) as [|o r]; cbn; [auto|].
+  destruct o; cbn in *; unfold user, tokbit; try tauto. destruct W as [-> W]. lia.
+Qed.
+Lemma ok_finish X K : kont_inv K (hnd X) (tok X) (prog X) -> thr_ok (finish X K).
+Proof.
+  destruct K as [|[|]|p u|]; cbn; unfold user; intros H; try exact H; apply ok_next; cbn; unfold boundary; intuition lia.
+Qed.
+Lemma ok_fallback X K : kont_inv K (hnd X) (tok X) (prog X) -> thr_ok (fallback X K).
+Proof.
+  destruct K as [|g|p [|]|]; cbn; unfold user; intros H; try exact H. apply ok_next; cbn; unfold boundary; intuition lia.
+Qed.
+Lemma own_next X : own (next X) = own X.
+Proof. unfold own, next. destruct (prog X); reflexivity. Qed.
+Lemma own_finish X K : own (finish X K) = own X.
+Proof. destruct K as [|[|]|p u|]; cbn; rewrite ?own_next; reflexivity. Qed.
+Lemma own_fallback X K : own (fallback X K) = own X.
+Proof. destruct K as [|g|p [|]|]; cbn; rewrite ?own_next; reflexivity. Qed.
+Lemma incs_next X : incs (next X) = count_incs (prog X).
+Proof. unfold incs, next, count_incs. destruct (prog X) as [|o r]; cbn; [lia|]. destruct o; cbn; lia. Qed.
+Lemma incs_finish X K : incs (finish X K) = count_incs (prog X).
+Proof. destruct K as [|[|]|p u|]; cbn; rewrite ?incs_next; cbn; unfold incs; cbn; lia. Qed.
+Lemma incs_fallback X K : incs (fallback X K) = count_incs (prog X).
+Proof. destruct K as [|g|p [|]|]; cbn; rewrite ?incs_next; cbn; unfold incs; cbn; lia. Qed.
+Lemma own_wake1 x : own (wake1 x) = own x.
+Proof. unfold own. destruct (wake1_fields x) as (_ & _ & -> & ->). reflexivity. Qed.
+Lemma incs_wake1 x : incs (wake1 x) = incs x.
+Proof. unfold incs, wake1. destruct (tpc x) eqn:E; cbn; rewrite ?E; reflexivity. Qed.
+Lemma ok_wake1 x : thr_ok x -> thr_ok (wake1 x).
+Proof. unfold thr_ok, wake1. destruct (tpc x) eqn:E; cbn; rewrite ?E; auto. Qed.
+
+Lemma kont_inv_own K h k p : kont_inv K h k p -> 0 <= h /\ tokbit k /\ 1 <= h + k.
+Proof. unfold kont_inv, user, tokbit. destruct K; intuition lia. Qed.
+Lemma thr_ok_own th : thr_ok th -> 0 <= hnd th /\ tokbit (tok th) /\ (tpc th <> PStart -> tpc th <> PDone -> 1 <= own th).
+Proof.
+  unfold thr_ok, own. destruct (tpc th) eqn:E; cbn; unfold boundary, user, tokbit;
+    try (intros H; apply kont_inv_own in H; unfold tokbit in H; intuition lia); try (intuition (try congruence; lia)).
+  destruct runner; intuition lia.
+Qed.
+
+Lemma wrap32_small z : 0 <= z < 4294967296 -> wrap 32 z = z.
+Proof. intros H. apply wrap_small. change (2 ^ 32) with 4294967296. exact H. Qed.
